@@ -11,6 +11,9 @@ CONSTANTS
   LineRuns <- LRuns
   CurveRuns <- CRuns
   FarJumps = TRUE
+  SweepOnly = FALSE
+  SweepA <- FineSweepAs
+  SweepB <- FineSweepBs
   Sim = TRUE
 INIT Init
 NEXT Next
